@@ -127,3 +127,46 @@ SPECS["C04"] = (
   ("... so any alteration of header, payload, extension or ROC is rejected", "IntegrityProofs.v", "ideal_srtp_altered_rejected"),
   ("SRTCP analogue", "IntegrityProofs.v", "ideal_srtcp_integrity")],
  "")
+SPECS["C02"] = (
+ "   C02: SRTCP round trip.  protect_rtcp / unprotect_rtcp are the monadic models of srtp_protect_rtcp / srtp_unprotect_rtcp\n"
+ "   (Rtcp.v, tied to srtp.c by the correspondence check); rtcp_wire is the byte-level description of the packet\n"
+ "   (header | body xor keystream when E | E+index | MKI | tag) and protect_rtcp_fun / unprotect_rtcp_fun the pure functions\n"
+ "   the monadic code is proved to refine (RtcpSpecProofs.v).  Scope: explicit stream for the packet's SSRC (the wildcard\n"
+ "   clone path is covered by C13 / C14 / C17), internal crypto (AES-ICM, NULL cipher, HMAC-SHA1, NULL auth), any MKI setting,\n"
+ "   any alias mode on either side.  The round trip premises are those a peer session with the same policy satisfies:\n"
+ "   same keys / services / MKI configuration, packet index not yet seen by the receiver.",
+ "From Srtp Require Import Util Constants KeyLimit Rdb Rdbx Icm World Stream Rtp Rtcp Session WfProofs RtcpSpec RtcpSpecProofs RtcpRoundTrip.",
+ [("the stream cipher is an involution: applying it again at the same state gives the input back", "RtcpSpec.v", "cipher_encrypt_involutive"),
+  ("what a successful srtp_protect_rtcp emits, byte for byte, for the stream's next SRTCP index", "RtcpSpecProofs.v", "protect_rtcp_wire"),
+  ("the E flag and index in the trailer are the ones the receiver extracts; length and SSRC", "RtcpRoundTrip.v", "rtcp_wire_trailer"),
+  ("round trip on the pure functions, with and without MKI", "RtcpRoundTrip.v", "rtcp_round_trip_fun"),
+  ("round trip of the monadic receiver on a wire packet: status ok, length, bytes, receiver state, no out-of-bounds access, input untouched", "RtcpRoundTrip.v", "rtcp_round_trip"),
+  ("end to end: whatever srtp_protect_rtcp produced is accepted by the peer and decodes to the byte-identical packet", "RtcpRoundTrip.v", "rtcp_protect_unprotect"),
+  ("non-vacuity (vm_compute): AES-ICM-128 / HMAC-SHA1-80, MKI with two keys, in place and out of place", "RtcpRoundTrip.v", "Example.protect_inplace_is_wire"),
+  ("", "RtcpRoundTrip.v", "Example.unprotect_outofplace_gives_pkt"),
+  ("the premise 0 <= services <= 3 is needed: outside sec_serv_t's range sender and receiver disagree about the E bit (unreachable through the API)", "RtcpRoundTrip.v", "Example.round_trip_serv_out_of_range_refuted")],
+ "")
+SPECS["C03"] = (
+ "   C03: wire format equals RFC 3711 (AES-CM key derivation, IV formation, keystream, packet layout).  Spec/Rfc3711.v is the\n"
+ "   independent specification written from the RFC text over AES-ECB only (cm_keystream, kdf, cm_iv; RFC 3711 B.2 / B.3\n"
+ "   test vectors are Examples there).  The theorems say the MODEL's cipher glue (Icm.v counter handling, salt / IV xor, Stream.v\n"
+ "   derive_keys) computes exactly those functions; the SRTCP packet layout is C02_protect_rtcp_wire.  GCM, AES-192 and the\n"
+ "   OpenSSL / NSS / mbedTLS back ends are not built in this configuration and are outside these theorems.\n"
+ "   Known finding F8a (RFC 6904 keystream not positional) is a deviation of the header-extension walk, reported by the check.",
+ "From Srtp Require Import Util Constants KeyLimit Rdb Rdbx Icm World Stream Rtp Rtcp Session SpecEqAes SpecEqProofs.\nFrom Srtp.Spec Require Import Rfc3711.",
+ [("the 16-bit block counter of aes_icm.c is integer addition on the 128-bit IV as long as it does not wrap", "SpecEqProofs.v", "ctr_add_be_val"),
+  ("keystream of the counter-mode loop = RFC 3711 4.1.1 keystream, up to 2^16 blocks", "SpecEqProofs.v", "ctr_keystream_cm"),
+  ("SRTP IV: (salt * 2^16) xor (SSRC * 2^64) xor (index * 2^16)", "SpecEqProofs.v", "rtp_iv_spec"),
+  ("SRTCP IV: the same with the 31-bit SRTCP index", "SpecEqProofs.v", "rtcp_iv_spec"),
+  ("encryption with a keyed cipher = xor with the RFC keystream for that key / salt / IV", "SpecEqProofs.v", "cipher_encrypt_spec_k"),
+  ("key derivation function = RFC 3711 4.3.1 (key_id = label * 2^48, r = 0), any master key length", "SpecEqProofs.v", "kdf_generate_spec"),
+  ("derive_keys (srtp_stream_init_keys): labels 0..5 (and 6/7 for RFC 6904), key / salt / auth-key lengths, AES-128 master key", "SpecEqProofs.v", "derive_keys_spec_128"),
+  ("... AES-256 master key", "SpecEqProofs.v", "derive_keys_spec_256"),
+  ("end to end for SRTP payloads: derived cipher started on the packet IV emits data xor cm_keystream(k_e, cm_iv(k_s, ssrc, i))", "SpecEqProofs.v", "session_rtp_encrypt"),
+  ("end to end for SRTCP", "SpecEqProofs.v", "session_rtcp_encrypt"),
+  ("end to end for the RFC 6904 header-extension keystream", "SpecEqProofs.v", "session_xtn_encrypt"),
+  ("boundary: like aes_icm.c the model refuses the 65536th block of one IV, which the RFC allows (packets / keys above 1 MiB - 16 only)", "SpecEqProofs.v", "kdf_boundary_differs"),
+  ("RFC 3711 B.3 key derivation test vectors evaluated on the model", "SpecEqProofs.v", "model_kdf_b3"),
+  ("RFC 3711 B.2 AES-CM test vectors evaluated on the specification", "Spec/Rfc3711.v", "cm_b2"),
+  ("RFC 3711 B.3 evaluated on the specification", "Spec/Rfc3711.v", "kdf_b3_cipher_key")],
+ "")
